@@ -15,7 +15,10 @@ import (
 // (b) "isect": the real geo.Box.Intersections vs the Lean model of Cramer + math.Round; (c) "clip": the real
 // Edge.TraceToShape on two-point routes between rectangles (what DefaultRouter does for cross-diagram edges) vs the
 // model's clipStart / clipEnd.
-func main() { hl.Main("C20", run) }
+func main() {
+	lay.MaybeChild()
+	hl.Main("C20", run)
+}
 
 type M = map[string]any
 
@@ -44,7 +47,7 @@ func clipCase(a, b [4]float64) M {
 	route := []*geo.Point{src.Center(), dst.Center()}
 	in := M{"src": M{"x": hl.Rat(a[0]), "y": hl.Rat(a[1]), "w": hl.Rat(a[2]), "h": hl.Rat(a[3])},
 		"dst": M{"x": hl.Rat(b[0]), "y": hl.Rat(b[1]), "w": hl.Rat(b[2]), "h": hl.Rat(b[3])},
-		"p0": pt(route[0]), "p1": pt(route[1])}
+		"p0":  pt(route[0]), "p1": pt(route[1])}
 	out := M{}
 	res := hl.Guard(func() {
 		s, t := e.TraceToShape(route, 0, 1)
@@ -148,12 +151,12 @@ func run(c *hl.Ctx) error {
 	}
 	g := &lay.Gen{R: r}
 	var jobs []lay.Job
-	nProg := lay.DevN(c.Pick(300, 6000))
+	nProg := lay.DevN(c.Pick(500, 8000))
 	weights := []string{"core", "core", "styled", "styled", "styled", "grid", "near", "nested", "nested", "names", "boards", "seq"}
 	for i := 0; i < nProg; i++ {
 		p := weights[i%len(weights)]
 		src := g.Program(p)
-		for _, e := range []string{"dagre", "elk"} {
+		for _, e := range lay.Engines(i/len(weights), 2) {
 			jobs = append(jobs, lay.Job{Src: src, Engine: e, Tag: p})
 		}
 	}
@@ -162,6 +165,9 @@ func run(c *hl.Ctx) error {
 		if rr == nil {
 			c.Count("budget:not-run")
 			continue
+		}
+		for _, ft := range lay.Features(rr) {
+			c.Count(rr.Engine + ":" + ft)
 		}
 		c.Emit(lay.GeoCase(rr))
 		c.Count("geo:" + jobs[i].Tag + ":" + rr.Engine)
